@@ -3,7 +3,7 @@
 cd /verif
 props=${@:-$(python3 -c "import json;print(' '.join(c['property_id'] for c in json.load(open('MANIFEST.json'))['checks']))")}
 for p in $props; do
-  ( bin/govc check --property $p --tier quick --no-evidence --out /tmp/allout/$p 2>&1 | grep -E "^property=|VIOLATION|failed obligation|UNSUPPORTED|CHECK-ERROR|KNOWN" | sed "s/^/[$p] /" ) &
+  ( bin/govc check --property $p --tier quick --no-evidence --out /tmp/allout/$p 2>&1 | grep -E "^property=|failed obligation|UNSUPPORTED|CHECK-ERROR|KNOWN" | cut -c1-200 | head -12 | sed "s/^/[$p] /" ) &
 done
 wait
 rm -rf /tmp/allout
